@@ -553,9 +553,10 @@ impl Trace {
         match guarded(|| obs_fields(gs, true)) {
             Ok(f) => {
                 self.emit(format!(
-                    "{{\"ev\":\"reset\",\"via\":\"{}\",\"tag\":{},\"a\":[0,0],\"pop\":0,\"push\":0,{}}}",
+                    "{{\"ev\":\"reset\",\"via\":\"{}\",\"tag\":{},\"a\":[0,0],\"pop\":0,\"push\":0,\"dg\":\"{}\",{}}}",
                     via,
                     json_str(tag),
+                    digest(&f),
                     f
                 ));
                 true
@@ -574,13 +575,34 @@ impl Trace {
             Ok(f) => {
                 let (x, y) = action_pair(a);
                 self.emit(format!(
-                    "{{\"ev\":\"act\",\"via\":\"\",\"tag\":\"\",\"a\":[{},{}],\"pop\":{},\"push\":{},{}}}",
+                    "{{\"ev\":\"act\",\"via\":\"\",\"tag\":\"\",\"a\":[{},{}],\"pop\":{},\"push\":{},\"dg\":\"{}\",{}}}",
                     x,
                     y,
                     pop,
                     if push { 1 } else { 0 },
+                    digest(&f),
                     f
                 ));
+                true
+            }
+            Err(st) => {
+                self.emit(format!("{{\"ev\":\"panic\",\"call\":{}}}", json_str(&st)));
+                false
+            }
+        }
+    }
+
+    /// C18: thread `tid` observed the child of the current state under action a with digest dg
+    pub fn tdig(&mut self, tid: usize, a: &Action, dg: &str, pop: usize) {
+        let (x, y) = action_pair(a);
+        self.emit(format!("{{\"ev\":\"tdig\",\"tid\":{},\"a\":[{},{}],\"pop\":{},\"dg\":\"{}\"}}", tid, x, y, pop, dg));
+    }
+
+    /// C18: the current state observed again (after the threads have joined)
+    pub fn reobs(&mut self, gs: &GameState, pop: usize) -> bool {
+        match guarded(|| obs_fields(gs, true)) {
+            Ok(f) => {
+                self.emit(format!("{{\"ev\":\"reobs\",\"pop\":{},\"dg\":\"{}\"}}", pop, digest(&f)));
                 true
             }
             Err(st) => {
@@ -597,6 +619,13 @@ impl Trace {
     pub fn flush(&mut self) {
         self.out.flush().unwrap();
     }
+}
+
+/// digest of an observation (all projected fields and query results as one string)
+pub fn digest(fields: &str) -> String {
+    let mut h = DefaultHasher::new();
+    fields.hash(&mut h);
+    format!("{:016x}", h.finish())
 }
 
 /// take_action under catch_unwind
